@@ -309,10 +309,10 @@ func run(r *ev.Run) {
 		"Advance targets are strictly greater than the last returned id (or first call); backward/repeated targets are outside the contract",
 		"the Next-only enumeration is the reference (its agreement with the documented meaning is C02's subject)",
 	}
-	nWorlds := r.Scale(12, 120)
+	nWorlds := r.Scale(30, 120)
 	nQueries := r.Scale(60, 200)
 	nProgs := r.Scale(12, 40)
-	r.MinDistinct = r.Scale(3000, 50000)
+	r.MinDistinct = r.Scale(8000, 50000)
 	dir := r.TempDir()
 
 	regress(r, dir)
